@@ -40,7 +40,7 @@ def script_case(name, n, writers, acts, tr, seed):
 
 def trace_cfg(n, writers):
     return ("CONSTANTS\n  Nodes = {%s}\n  Writers = {%s}\n  MaxSect = 99\n  MaxVer = 60\n  DropBudget = 99\n"
-            "  DupBudget = 99\n  Filter = TRUE\n  ValueEq = TRUE\n  SoloTries = 99\n  SplitPC = TRUE\nINIT TInit\nNEXT TNext0\n"
+            "  DupBudget = 99\n  Filter = TRUE\n  ValueEq = TRUE\n  SoloTries = 99\n  SplitPC = TRUE\n  CommitRetry = TRUE\nINIT TInit\nNEXT TNext0\n"
             "CHECK_DEADLOCK FALSE\n" % (", ".join(map(str, range(1, n + 1))), ", ".join(map(str, writers))))
 
 
@@ -254,7 +254,23 @@ def run(chk):
     obsbox = {}
 
     def pfold():
-        obsbox["r"] = V.fold_traces(work, "OneCopyObs", "OneCopyObs.cfg", good, timeout=2400, chunks=4 if quick else 10, max_rounds=8)
+        # the two transports are folded separately (a flood of rejections on one must not hide the other);
+        # the targeted schedules come first
+        out = {"accepted": 0, "rejected": [], "states": 0, "transitions": 0, "errors": []}
+        boxes = {}
+
+        def one(tr):
+            mine = [s for s in good if s[0].get("tr") == tr]
+            mine.sort(key=lambda s: 0 if s[0].get("case", "").startswith(("dw-", "rel-")) else 1)
+            boxes[tr] = V.fold_traces(work, "OneCopyObs", "OneCopyObs.cfg", mine, timeout=2400,
+                                      chunks=2 if quick else 5, max_rounds=6)
+        ts = [threading.Thread(target=one, args=(tr,)) for tr in sorted({s[0].get("tr") for s in good})]
+        [t.start() for t in ts]
+        [t.join() for t in ts]
+        for r in boxes.values():
+            for k in out:
+                out[k] += r[k]
+        obsbox["r"] = out
     pth = threading.Thread(target=pfold)
     pth.start()
     mths = start_mlevel(chk, specsrc, good)
@@ -263,6 +279,7 @@ def run(chk):
     chk.states += obs["states"]; chk.transitions += obs["transitions"]; chk.traces += obs["accepted"]
     for e in obs["errors"]:
         chk.inconclusive.append("OneCopyObs: " + e)
+    seen_classes = {}
     for r in obs["rejected"]:
         seg = r["seg"]
         h = seg[0]
@@ -273,6 +290,10 @@ def run(chk):
         if r["kind"] == "stuck":
             chk.inconclusive.append("OneCopyObs could not consume event %d of case %s" % (r["line_in_seg"], h.get("case")))
             continue
+        cls = (inv, h.get("tr"), h.get("mode"))
+        seen_classes[cls] = seen_classes.get(cls, 0) + 1
+        if seen_classes[cls] > 1:
+            continue      # one replay per class (invariant, transport, kind of schedule); the count is in the evidence
         c = bycase.get(h.get("case"), {})
         st = stat.get(h.get("case"), {})
         replay_case = dict(c)
@@ -289,6 +310,7 @@ def run(chk):
                       {"case": replay_case, "line_in_seg": r["line_in_seg"], "tlc": r["text"],
                        "events": seg[max(0, r["line_in_seg"] - 40):r["line_in_seg"] + 2]})
 
+    chk.notes["rejected_cases_per_class"] = {"/".join(map(str, k)): v for k, v in seen_classes.items()}
     # ------------------------------------------------------------------ 5. M-level conformance (drift only)
     [t.join() for t in mths[0]]
     conform = mths[1]
